@@ -42,16 +42,23 @@ pub const MANY: u8 = 2;
 /// Build a request of the given arity whose continuation records into `rec`; a `Many` request
 /// reports "consumer gone" (Err) from its `close_at`-th delivery attempt on (0-based).
 pub fn make_request(kind: u8, op: u8, rec: &Arc<Recorder>, close_at: u8) -> Request<Op> {
+    make_request_for(kind, Op(op), rec, close_at)
+}
+
+pub fn make_request_for<O>(kind: u8, op: O, rec: &Arc<Recorder>, close_at: u8) -> Request<O>
+where
+    O: crux_core::capability::Operation<Output = u8>,
+{
     match kind {
-        NEVER => Request::verif_resolves_never(Op(op)),
+        NEVER => Request::verif_resolves_never(op),
         ONCE => {
             let rec = rec.clone();
-            Request::verif_resolves_once(Op(op), move |v| rec.push(v))
+            Request::verif_resolves_once(op, move |v| rec.push(v))
         }
         _ => {
             let rec = rec.clone();
             let attempts = AtomicU8::new(0);
-            Request::verif_resolves_many_times(Op(op), move |v| {
+            Request::verif_resolves_many_times(op, move |v| {
                 let a = attempts.load(Ordering::SeqCst);
                 attempts.store(a.saturating_add(1), Ordering::SeqCst);
                 if a >= close_at {
